@@ -468,6 +468,56 @@ theorem CostModel.new_eq_some (feats : List (FeatureConfig α)) (agg : CostAggre
   · cases h
     simp
 
+/-! ### linearity and congruence of the per-feature sums -/
+
+theorem sum_terms_linear {ι : Type} (l : List ι) (X w1 w2 w3 : ι → α) (a b : α)
+    (h : ∀ i ∈ l, w3 i = a * w1 i + b * w2 i) :
+    (l.map fun i => X i * w3 i).sum
+      = a * (l.map fun i => X i * w1 i).sum + b * (l.map fun i => X i * w2 i).sum := by
+  induction l with
+  | nil => simp
+  | cons i l ih =>
+    have hi := h i (by simp)
+    have hl := ih (fun j hj => h j (by simp [hj]))
+    simp only [List.map_cons, List.sum_cons, hl, hi]
+    ring
+
+theorem getD_zipWith_linear (w1 w2 : List α) (a b : α) (i : Nat) (h1 : i < w1.length) (h2 : i < w2.length) :
+    (List.zipWith (fun x y => a * x + b * y) w1 w2).getD i 0 = a * w1.getD i 0 + b * w2.getD i 0 := by
+  have h3 : i < (List.zipWith (fun x y => a * x + b * y) w1 w2).length := by
+    simp [List.length_zipWith, h1, h2]
+  simp [List.getD, List.getElem?_eq_getElem h3, List.getElem?_eq_getElem h1, List.getElem?_eq_getElem h2]
+
+/-- the pre-floor traversal value under sum aggregation, as an explicit function of the weight vector -/
+theorem CostModel.traversalTotal_sum_weights (m : CostModel α) (hs : m.agg = .sum) (w : List α) (e : Nat)
+    (prev next : List α) (h : CostModel.InRange { m with weights := w } prev next) :
+    CostModel.traversalTotal { m with weights := w } e prev next
+      = some ((m.indices.map fun i => (m.vr i).mapValue (stateDelta prev next i) * w.getD i 0).sum
+          + (m.indices.map fun i => (m.nr i).traversalCost e * w.getD i 0).sum) := by
+  rw [CostModel.traversalTotal_eq _ e prev next h]
+  show some (m.agg.agg _ + m.agg.agg _) = _
+  rw [hs, agg_sum, agg_sum]
+  rfl
+
+theorem CostModel.accessTotal_sum_weights (m : CostModel α) (hs : m.agg = .sum) (w : List α) (pe ne : Nat)
+    (prev next : List α) (h : CostModel.InRangeV { m with weights := w } prev next) :
+    CostModel.accessTotal { m with weights := w } pe ne prev next
+      = some ((m.indices.map fun i => (m.vr i).mapValue (stateDelta prev next i) * w.getD i 0).sum
+          + (m.indices.map fun i => (m.nr i).accessCost pe ne * w.getD i 0).sum) := by
+  rw [CostModel.accessTotal_eq _ pe ne prev next h]
+  show some (m.agg.agg _ + m.agg.agg _) = _
+  rw [hs, agg_sum, agg_sum]
+  rfl
+
+theorem CostModel.vehicleCosts_sum_weights (m : CostModel α) (hs : m.agg = .sum) (w : List α)
+    (prev next : List α) (h : CostModel.InRangeV { m with weights := w } prev next) :
+    CostModel.vehicleCosts { m with weights := w } prev next
+      = some ((m.indices.map fun i => (m.vr i).mapValue (stateDelta prev next i) * w.getD i 0).sum) := by
+  rw [CostModel.vehicleCosts_eq _ prev next h]
+  show some (m.agg.agg _) = _
+  rw [hs, agg_sum]
+  rfl
+
 end
 
 end Compass
